@@ -879,6 +879,7 @@ func (m *Machine) runBlock(fr *frame) {
 			fv, args := m.prepareCall(fr, &in.Call)
 			m.event("go")
 			m.spawn(fv, args)
+			m.preemptPoint() // the new goroutine may run before its creator continues
 		case *ssa.MakeChan:
 			n := m.concretize(m.get(fr, in.Size).(*term.Term), 0, 1<<16)
 			fr.env[in] = &chanVal{cap: n, elem: in.Type().Underlying().(*types.Chan).Elem()}
